@@ -476,7 +476,7 @@ def shards(tier):
 def run_shard(spec, seed, tier):
     res = ShardResult()
     if spec["kind"] == "hyp":
-        n, ml = (50, 12) if tier == "quick" else (900, 25)
+        n, ml = (50, 12) if tier == "quick" else (500, 25)
         hyp.search(res, st_case(ml), body, seed, n)
     else:
         depth = 4 if tier == "quick" else 5
